@@ -7,20 +7,23 @@ import random
 from lxml import etree
 
 from harness.core import Result
-from harness import xsdgen, xmlcanon, enginea, valgen
+from harness import xsdgen, xmlcanon, enginea, valgen, kwtie
 
-LEAN_MODULES = ["ZeepProofs.C12", "ZeepProofs.C12Faithful"]
+LEAN_MODULES = ["ZeepProofs.C12", "ZeepProofs.C12Faithful", "ZeepProofs.C12Choice"]
 NS = "Zeep.Bind."
 THEOREMS = [NS + t for t in ("c12_unknown_key_refused", "c12_unknown_key_any_depth", "c12_surplus_positional_refused", "c12_duplicate_refused",
                               "c12_occurs_refused", "c12_missing_required_refused", "c12_missing_required_attribute_refused",
-                              "c12_conventions_agree", "c12_skip_omits", "c12_nil_marks", "c12_faithful")]
+                              "c12_conventions_agree", "c12_skip_omits", "c12_nil_marks", "c12_faithful")] + [
+    "Zeep.BindKw." + t for t in ("c12_two_choice_branches_refused", "c12_kw_unknown_refused", "c12_kw_accepted_keeps_values", "c12_kw_conforming_accepted")]
 LEVEL = "proof"
 MANIFEST = dict(
-    engine="A: lean/ZeepModel/Xsd/Bind.lean (+ harness/valgen.py)",
+    engine="A: lean/ZeepModel/Xsd/Bind.lean, lean/ZeepModel/Xsd/BindKw.lean (+ harness/valgen.py, harness/kwtie.py)",
     technique="Lean 4 model of zeep's binder and render-time validation on the record family (sequences of leaf / record typed elements with any "
               "occurrence bounds, nillable, repeated sequences, attributes); refusal theorems for every corruption class and agreement of the "
               "calling conventions, proved for all signatures and argument sets; differential tie on conforming calls and their single-point "
-              "corruptions, plus a direct refusal oracle on the implementation (choice branches included)",
+              "corruptions, plus a direct refusal oracle on the implementation (choice branches included); a second, statement-level model of the keyword "
+              "pass of _process_signature over signatures with non-repeating choices (Choice.parse_kwargs with its scratch copy of the available "
+              "keywords), with refusal / acceptance / nothing-ignored theorems for all signatures and calls, tied to _process_signature itself",
     text="For every record signature and every argument set the model refuses (TypeError / ValidationError before any XML exists) a keyword that "
          "names nothing — at the top level and, by induction over the path, at any nesting depth incl. inside an iteration of a repeated sequence —, "
          "surplus positional arguments, a field given twice, a repetition outside its occurrence bounds, a missing required non-nillable element "
@@ -29,8 +32,13 @@ MANIFEST = dict(
          "as dicts, value objects, a mix per nesting level and positionally, must give identical XML equal to the reference serialisation, and "
          "every single-point corruption (extra key, misspelt key, key of the other choice branch, extra positional, duplicate, required item "
          "removed or None, list shorter than minOccurs / longer than maxOccurs on elements and repeated sequences, SkipValue / Nil substituted) "
-         "must be refused — or, for the two markers, accepted with exactly the expected document; outcome class and XML are compared with the model.",
-    note="Choice, all, group and wildcard members are outside the Lean model (refusal is checked on the implementation only). On the implementation, faithfulness of an "
+         "must be refused — or, for the two markers, accepted with exactly the expected document; outcome class and XML are compared with the model. "
+         "For signatures with non-repeating choices (any number of branches, anywhere in the sequence): values for two branches of one choice are "
+         "refused however the unused branches are spelt (c12_two_choice_branches_refused), an unknown keyword is refused (c12_kw_unknown_refused), an "
+         "accepted call binds every keyword whose value counts as given with the caller's value (c12_kw_accepted_keeps_values) and a call with "
+         "declared keys and at most one valued branch per choice is accepted (c12_kw_conforming_accepted); the model is run against "
+         "_process_signature on every spelling (absent / None / [] / value) of every name of five signature shapes, unknown keys and shuffled key order.",
+    note="Repeating choices, choices with sequence branches, all, group and wildcard members are outside the Lean models (refusal is checked on the implementation only). On the implementation, faithfulness of an "
          "accepted call is judged against the reference serialisation of what was supplied (as in C02).",
     design_ref="DESIGN.md sections 5 and 6, C12",
 )
@@ -694,6 +702,7 @@ def run(ctx):
     pending = []
     hand_cases(ctx, res)
     hand_cases2(ctx, res)
+    kwtie.kw_tie(ctx, res, ctx.model.run if ctx.model else None)
     n = ctx.n(120, 2000)
     for i in range(n):
         seed = ctx.seed * 100000 + i
@@ -718,6 +727,20 @@ def search(ctx):
 
 
 def replay(ctx, payload):
+    if payload.get("case", payload).get("kind") == "kw":
+        c = payload.get("case", payload)
+        import zeep.xsd
+        from zeep.xsd.valueobjects import _process_signature
+        items = [(k, x) for k, x in c["items"]]
+        kw = [(k, v) for k, v in c["kw"]]
+        zs = zeep.xsd.Schema(etree.fromstring(kwtie.kw_schema(items, c["attrs"]).encode()))
+        try:
+            got, out = dict(_process_signature(zs.get_element("{urn:kw}sig").type, (), dict(kw))), "accept"
+        except TypeError as e:
+            got, out = str(e)[:80], "refuse"
+        exp = kwtie.kw_expect(items, c["attrs"], kw)
+        ok = out == exp and (out == "refuse" or all(got.get(k) == v for k, v in kw if not (v is None or v == [])))
+        return ok, "keyword call %s (expected %s): %r" % (out, exp, got)
     if payload.get("case", payload).get("kind") == "hand2":
         r = Result()
         hand_cases2(ctx, r)
